@@ -74,6 +74,8 @@ def run(cx):
     dec_subs = [n for n in walk_local(dec) if isinstance(n, ast.Subscript) and isinstance(n.value, ast.Name) and n.value.id in mod.globals]
     dec_gets = [n for n in walk_local(dec) if isinstance(n, ast.Call) and isinstance(n.func, ast.Attribute) and n.func.attr == "get"
                 and isinstance(n.func.value, ast.Name) and n.func.value.id in mod.globals]
+    if not (dec_subs or dec_gets):
+        _translate_decoder(cx, dec, from_short, mod, alpha_name)
     cx.need(dec_subs or dec_gets, "R20c", dec, "decoder does not look digits up in a module-level map")
     index_name = (dec_subs[0].value.id if dec_subs else dec_gets[0].func.value.id)
 
@@ -453,3 +455,36 @@ def _variable_groups(cx, enc):
         if (multi_iter or later_loop) and not padded_here:
             cx.ob("R20c", w, False, "this loop emits as many digits as its group happens to have, and more digits are emitted afterwards "
                   "without padding the group to a fixed length: later digits land at value-dependent positions (the string decodes to another number)")
+
+
+def _translate_decoder(cx, dec, from_short, mod, alpha_name):
+    """A decoder that maps characters to digit values with (bytes|str).translate: translate leaves every character that is
+    not a key of the table UNCHANGED, so a character outside the alphabet comes out as its own code.  If the only rejection
+    is a comparison of the value with the base, every foreign character whose code is below the base is accepted as a digit.
+    Only this definite case is refuted (no membership / pattern test on the characters anywhere on the way); otherwise the
+    decoder stays undecided."""
+    trs = [c for c in walk_local(dec) if isinstance(c, ast.Call) and isinstance(c.func, ast.Attribute) and c.func.attr == "translate" and len(c.args) == 1
+           and isinstance(c.args[0], ast.Name) and c.args[0].id in mod.globals]
+    if not trs:
+        return
+    tbl = mod.globals[trs[0].args[0].id]
+    if not (isinstance(tbl, ast.Call) and isinstance(tbl.func, ast.Attribute) and tbl.func.attr == "maketrans" and alpha_name in names_in(tbl)):
+        return
+    try:
+        alpha = [c for c in literal(mod.globals[alpha_name], mod)]
+    except Exception:
+        return
+    base = len(alpha)
+    # any test that looks at the characters themselves?
+    for f in (dec, from_short):
+        for n in walk_local(f):
+            if isinstance(n, ast.Compare) and any(isinstance(o, (ast.In, ast.NotIn)) for o in n.ops) and (alpha_name in names_in(n) or any(g in names_in(n) for g in mod.globals if g != alpha_name and alpha_name in names_in(mod.globals[g]))):
+                return
+            if isinstance(n, ast.Call) and call_name(n) in ("issubset", "issuperset", "match", "fullmatch", "isalnum", "difference", "strip"):
+                return
+    guards = [n for n in walk_local(dec) if isinstance(n, ast.Compare) and len(n.ops) == 1 and isinstance(n.ops[0], (ast.GtE, ast.Gt, ast.Lt, ast.LtE))]
+    foreign = [c for c in range(128) if chr(c) not in alpha and c < base]
+    if foreign:
+        shown = ", ".join(repr(chr(c)) for c in foreign if 32 <= c < 127)[:80]
+        cx.ob("R20c", trs[0], False, f"translate() leaves characters outside the alphabet unchanged; the only rejection is {('`' + norm(guards[0]) + '`') if guards else 'none'}, "
+              f"so {len(foreign)} foreign ASCII characters with a code below {base} (e.g. {shown}) are taken as digits instead of raising ValueError")
